@@ -600,15 +600,23 @@ def replay(doc, path):
     case = doc["case"]
     documents = [(d["id"], d["document"], d.get("ext")) for d in case["documents"]]
     # decide in the same mode the check used (keeping the full texts changes
-    # the allocation pattern of the child, which matters for address-dependent bugs)
-    res = run_orders(documents, case["configs"], case["orders"], full=False)
+    # the allocation pattern of the child, which matters for address-dependent
+    # bugs).  A few attempts: when the library itself starts threads, two runs
+    # of one configuration need not agree with themselves.
     target = case["target"]
-    first = res[0]["docs"].get(target)
-    differing = [
-        part
-        for part in ("py", "json", "names", "pe")
-        if any(r["docs"].get(target, {}).get(part) != (first or {}).get(part) for r in res[1:])
-    ]
+    differing = []
+    for attempt_no in range(6):
+        res = run_orders(documents, case["configs"], case["orders"], full=False)
+        first = res[0]["docs"].get(target)
+        differing = [
+            part
+            for part in ("py", "json", "names", "pe")
+            if any(r["docs"].get(target, {}).get(part) != (first or {}).get(part) for r in res[1:])
+        ]
+        if differing:
+            if attempt_no:
+                print(f"replay: reproduced at attempt {attempt_no + 1} (outcome is not a function of the configuration alone)")
+            break
     if not differing:
         print(f"replay: configurations agree for {path}")
         return 0
@@ -687,10 +695,17 @@ def _check(tier, seed, n_docs, configs, orders_reachable, n_cli, n_cli_conf, wor
     again = run_config(configs[0], batch_paths[0])
     first = outs[0]
     det_ok = again["docs"] == first["docs"] and again["validator_order"] == first["validator_order"]
-    if again["docs"] != first["docs"]:
-        print("HARNESS-ERROR: the same configuration gave different output twice")
-        return 2
     bad = disagreements(per_config)
+    self_bad = set()
+    if again["docs"] != first["docs"]:
+        # every input of the interpreter is chosen by the simulator, so two runs
+        # of one configuration can only differ if the library itself is
+        # nondeterministic (its own threads, clocks, randomness): that is the
+        # property failing, not the harness
+        for doc_id, res in again["docs"].items():
+            if res != first["docs"].get(doc_id):
+                bad.setdefault(doc_id, []).append("same_configuration_twice")
+                self_bad.add(doc_id)
     # CLI subset: real command line, stdout bytes
     cli_docs = [d for d in docs if d[0] in nontrivial][:n_cli] or docs[:n_cli]
     cli_tasks = [(conf, os.path.join(workdir, f"{d[0]}.json")) for d in cli_docs for conf in configs[:n_cli_conf]]
@@ -744,8 +759,8 @@ def _check(tier, seed, n_docs, configs, orders_reachable, n_cli, n_cli_conf, wor
         other = next(
             (i for i, pc in enumerate(per_config) if pc["docs"][doc_id] != ref), None
         )
-        if other is None:  # only the CLI disagreed with the batch result
-            other = 1
+        if other is None:  # only the CLI disagreed, or the configuration with itself
+            other = 0 if doc_id in self_bad else 1
         conf_a, conf_b = configs[0], configs[other]
         deadline = time.time() + budget
         if target_disagrees([(doc_id, doc, ext)], [conf_a, conf_b], [[doc_id], [doc_id]], doc_id):
